@@ -102,7 +102,7 @@ func snapReplica(s *scn.Scn) c04Snap {
 
 func isDisturbance(op string) bool {
 	switch op {
-	case "CL", "KILL", "RSET", "RMMETA", "SWAPDB":
+	case "CL", "KILL", "RSET", "RSETCLI", "RMMETA", "SWAPDB":
 		return true
 	}
 	return false
@@ -191,7 +191,12 @@ func c04Check() *HistCheck {
 			hdrBefore, _ := s.L0Header()
 			o := s.Do("SW")
 			if !o.Ack {
-				return nil, "final-sw-failed:" + o.String(), nil
+				// "it starts over with a full snapshot": after any disturbance of this alphabet (nothing here holds a
+				// lock or injects a fault) replication must come back; a sync that keeps failing is the wedged state
+				// the property rules out. One retry, as the monitor would do.
+				if o2 := s.Do("SW"); !o2.Ack {
+					return []*scn.Problem{{Kind: "sync-wedged-after-disturbance", Detail: "the closing SyncAndWait fails twice: " + o2.String()}}, "", nil
+				}
 			}
 			probs := ackCheck(s, x)
 			for _, p := range probs {
@@ -246,7 +251,7 @@ func c04(args []string) int {
 	g := c04Grammar(nil)
 	// Disturbance alphabet: lifecycle + application activity while down + run-time reset.
 	alphaD := strings.Fields("CL KILL START NEW RSET W1 W3 CK:TRUNCATE CK:RESTART SW")
-	alphaD2 := strings.Fields("CL KILL START NEW RMMETA CC CO W1 W3 CK:PASSIVE CK:TRUNCATE SW")
+	alphaD2 := strings.Fields("CL KILL START NEW RMMETA RSETCLI CC CO W1 W3 CK:PASSIVE CK:TRUNCATE SW")
 	alphaSwap := strings.Fields("SAVEDB W1 SW CL NEW START SWAPDB W3")
 	alphaWideD := strings.Fields("CL KILL START NEW RSET RMMETA SAVEDB SWAPDB CC CO W1 W3 WN:9 CK:PASSIVE CK:FULL CK:RESTART CK:TRUNCATE S SW LC:TRUNCATE")
 	// Minimal histories of the defects this check found and that were repaired (F1, F3, F3b, F2, F17, F18): each is
